@@ -314,8 +314,12 @@ fn one_history(rng: &mut Rng, shard: &mut Shard) -> usize {
     shard.count("histories");
     let swept = sweep_history(shard, &u, &history, pruning);
     if shard.want_sample() {
+        let last_commit_json = {
+            let j = updates_to_json(history.last().unwrap());
+            if j.to_string().len() > 4000 { json!("(large commit omitted from the sample)") } else { j }
+        };
         shard.sample(|| json!({"commits": n, "pruning": pruning, "commits_swept": swept, "substate_writes_per_commit": history.iter().map(substate_writes).collect::<Vec<_>>(),
-            "last_commit": { let j = updates_to_json(history.last().unwrap()); if j.to_string().len() > 4000 { json!("(large commit omitted from the sample)") } else { j } }}));
+            "last_commit": last_commit_json}));
     }
     swept
 }
